@@ -45,9 +45,11 @@ type verifNoder interface {
 
 func (w toMapWrapper[S]) verifNode() *VerifMapNode {
 	n := &VerifMapNode{Kind: "Struct"}
-	for k := range w.attr {
+	// through the storage interface, not the private fields: the attribute table may be restructured
+	w.Iter(func(k string, _ Value) bool {
 		n.Keys = append(n.Keys, k)
-	}
+		return true
+	})
 	sort.Strings(n.Keys)
 	n.Vals = make([]Value, len(n.Keys))
 	return n
